@@ -285,6 +285,22 @@ pub fn run(ctx: &mut Ctx) {
         }
     }
     pipelines(ctx, &mut rng, &mut idx);
+    // (viii) every Cookie value of up to 5 (thorough: 6) symbols over {a = ; " SP}: quotes, empty names and values, stray separators
+    let calpha: [u8; 5] = [b'a', b'=', b';', b'"', b' '];
+    let cmax = if ctx.thorough() { 6 } else { 5 };
+    let mut cur: Vec<usize> = vec![0];
+    loop {
+        let v: Vec<u8> = cur.iter().map(|&i| calpha[i]).collect();
+        let s = [&b"GET / HTTP/1.1\r\nCookie: "[..], &v, b"\r\n\r\n"].concat();
+        go!(8192, &[], &s, "eof", &[], 0);
+        let mut pos = cur.len();
+        loop {
+            if pos == 0 { cur = vec![0; cur.len() + 1]; break; }
+            pos -= 1;
+            if cur[pos] + 1 < calpha.len() { cur[pos] += 1; for c in cur.iter_mut().skip(pos + 1) { *c = 0; } break; }
+        }
+        if cur.len() > cmax { break; }
+    }
     // (v) all 2-way splits and EOF/error at every offset of short heads
     let shorts: [&[u8]; 4] = [b"GET / HTTP/1.1\r\n\r\n", b"PUT /a?b=c HTTP/1.1\r\nh: v\r\n\r\nX", b"G / HTTP/1.1\r\na:\x80\r\n\r\n", b"\r\n\r\n"];
     for s in shorts {
